@@ -103,7 +103,9 @@ use crate::values::Value;
 use crate::values::ValueLike;
 use crate::values::any::AtomicFrozenAnyValueOption;
 use crate::values::any::FrozenAnyValue;
+use crate::values::dict::DictRef;
 use crate::values::function::FUNCTION_TYPE;
+use crate::values::tuple::TupleRef;
 use crate::values::types::any_array::AnyArray;
 use crate::values::types::any_array::FrozenAnyArray;
 use crate::values::typing::type_compiled::compiled::TypeCompiled;
@@ -748,6 +750,21 @@ where
             match eval.current_frame.get_slot(i.to_captured_or_not()) {
                 None => {
                     panic!("Not allowed optional unassigned with type annotations on them")
+                }
+                // The annotation of `*args` is the type of each positional argument collected,
+                // of `**kwargs` the type of each named argument collected
+                // (the static typechecker gives them types `tuple[T, ...]` and `dict[str, T]`).
+                Some(v) if Some(i.0) == self.parameters.args_index() => {
+                    for x in TupleRef::from_value(v).map_or(&[][..], |t| t.content()) {
+                        ty.check_type(*x, Some(arg_name))?;
+                    }
+                }
+                Some(v) if Some(i.0) == self.parameters.kwargs_index() => {
+                    if let Some(kwargs) = DictRef::from_value(v) {
+                        for x in kwargs.values() {
+                            ty.check_type(x, Some(arg_name))?;
+                        }
+                    }
                 }
                 Some(v) => ty.check_type(v, Some(arg_name))?,
             }
